@@ -1,2 +1,7 @@
 import PoxModel.Properties.C02
+import PoxModel.Properties.C03
+import PoxModel.Properties.C08
+import PoxModel.Properties.C14
+import PoxModel.Properties.C16
 import PoxModel.Properties.C18
+import PoxModel.Properties.C20
